@@ -28,10 +28,17 @@ type sideScript struct {
 	Chunks    []int  // sizes of the chunks this side's peer produces
 	End       string // "", "eof", "rerr"
 	WriteFail int    // -1 never; n: the n-th write to this side fails
+	// EndWithData: the Read that returns the last bytes also returns the
+	// EOF/error (what a transport's Read does with decoded data + a fatal error)
+	EndWithData bool
 }
 
 func (s sideScript) String() string {
-	return fmt.Sprintf("chunks=%v end=%q wfail=%d", s.Chunks, s.End, s.WriteFail)
+	e := ""
+	if s.EndWithData {
+		e = " end-with-data"
+	}
+	return fmt.Sprintf("chunks=%v end=%q wfail=%d%s", s.Chunks, s.End, s.WriteFail, e)
 }
 
 var errInjectedRead = errors.New("injected read error")
@@ -54,6 +61,7 @@ func copyScenario(name string, sa, sb sideScript, bound int, free bool) mc.Scena
 		Run: func(c *mc.Ctx) {
 			aLocal, aPeer := wire.Pipe("a", "a-peer")
 			bLocal, bPeer := wire.Pipe("b", "b-peer")
+			aLocal.CoalesceEnd, bLocal.CoalesceEnd = sa.EndWithData, sb.EndWithData
 			var produced [2][]byte
 			returned := false
 			var retErr error
@@ -67,11 +75,15 @@ func copyScenario(name string, sa, sb sideScript, bound int, free bool) mc.Scena
 					}
 					switch sc.End {
 					case "eof":
-						sched.Cur().Point("env-eof", nil)
+						if !sc.EndWithData {
+							sched.Cur().Point("env-eof", nil)
+						}
 						peer.CloseWrite()
 						ended[side] = true
 					case "rerr":
-						sched.Cur().Point("env-rerr", nil)
+						if !sc.EndWithData {
+							sched.Cur().Point("env-rerr", nil)
+						}
 						peer.Out.Err = errInjectedRead
 						ended[side] = true
 					}
@@ -351,8 +363,8 @@ func c19Scenarios(cfg *mc.Config, emit func(mc.Scenario)) {
 							if wfa >= 0 && !wfReachable(wfa, cb) || wfb >= 0 && !wfReachable(wfb, ca) {
 								continue
 							}
-							sa := sideScript{ca, ea, wfa}
-							sb := sideScript{cb, eb, wfb}
+							sa := sideScript{ca, ea, wfa, false}
+							sb := sideScript{cb, eb, wfb, false}
 							emit(copyScenario(fmt.Sprintf("copy/a[%v]/b[%v]", sa, sb), sa, sb, b, false))
 						}
 					}
@@ -360,9 +372,19 @@ func c19Scenarios(cfg *mc.Config, emit func(mc.Scenario)) {
 			}
 		}
 	}
+	// the last bytes arrive in the same Read as the EOF / error
+	for _, end := range []string{"eof", "rerr"} {
+		for _, ch := range [][]int{{3}, {3, 5}} {
+			sa := sideScript{ch, end, -1, true}
+			for _, sb := range []sideScript{{nil, "", -1, false}, {[]int{3}, "", -1, false}, {[]int{4}, end, -1, true}} {
+				emit(copyScenario(fmt.Sprintf("copy/end-with-data/a[%v]/b[%v]", sa, sb), sa, sb, b, false))
+				emit(copyScenario(fmt.Sprintf("copy/end-with-data/b[%v]/a[%v]", sa, sb), sb, sa, b, false))
+			}
+		}
+	}
 	if !cfg.Thorough() {
-		emit(copyScenario("copy/big/a[40000,eof]", sideScript{[]int{40000}, "eof", -1}, sideScript{[]int{3}, "", -1}, b, false))
-		emit(copyScenario("copy/big/wfail1", sideScript{[]int{3}, "", 1}, sideScript{[]int{40000}, "", -1}, b, false))
+		emit(copyScenario("copy/big/a[40000,eof]", sideScript{[]int{40000}, "eof", -1, false}, sideScript{[]int{3}, "", -1, false}, b, false))
+		emit(copyScenario("copy/big/wfail1", sideScript{[]int{3}, "", 1, false}, sideScript{[]int{40000}, "", -1, false}, b, false))
 	}
 	// visited-state pruning makes the complete interleaving space finite
 	// and small: explore it without a preemption bound.
